@@ -322,6 +322,9 @@ def iter_next(ex, it):
     if it.kind == 'seqiter':
         import models_it
         return models_it.seq_next(ex, it)
+    if it.kind == 'splitstr':
+        import models_it
+        return models_it.splitstr_next(ex, it)
     if it.kind == 'peekable':
         if it.peeked is not None:
             v = it.peeked
